@@ -141,7 +141,8 @@ func (w *webWriter) flushWithTrailer() {
 		for key, val := range hdr {
 			if strings.HasPrefix(key, http.TrailerPrefix) {
 				delete(hdr, key)
-				hdr[strings.TrimPrefix(key, http.TrailerPrefix)] = val
+				key = strings.TrimPrefix(key, http.TrailerPrefix)
+				hdr[key] = append(hdr[key], val...) // keep a header of the same name
 			}
 		}
 	}
